@@ -92,8 +92,19 @@ pub fn guard<T>(f: impl FnOnce() -> T) -> Result<T, String> {
     }
 }
 
+pub static LAST_PANIC: std::sync::Mutex<String> = std::sync::Mutex::new(String::new());
+
+/// Panics inside jiff are data (caught by `guard`); keep the terminal quiet
+/// but remember the last one so that a panic of the harness itself is shown.
 pub fn silence_panics() {
-    std::panic::set_hook(Box::new(|_| {}));
+    std::panic::set_hook(Box::new(|info| {
+        if let Ok(mut g) = LAST_PANIC.lock() {
+            *g = format!("{info}");
+        }
+        if std::env::var("JV_DEBUG").is_ok() {
+            eprintln!("[panic] {info}\n{}", std::backtrace::Backtrace::force_capture());
+        }
+    }));
 }
 
 /// "ok" / "err" / "panic" status of a guarded fallible call, plus value.
@@ -203,6 +214,7 @@ impl Out {
     }
 }
 
+#[derive(Clone)]
 pub struct Args {
     pub tier: String,
     pub seed: u64,
@@ -254,12 +266,13 @@ pub fn jdt(dt: DateTime) -> Value {
         dt.subsec_nanosecond()
     ])
 }
-/// Ok(date) -> [y,m,d]; Err -> 0; panic -> "panic"
+/// Ok(date) -> [y,m,d]; Err -> []; panic -> [-1].  Always a sequence: TLC
+/// refuses to compare values of different shapes.
 pub fn jres_date<E>(r: Result<Result<Date, E>, String>) -> Value {
     match r {
         Ok(Ok(d)) => jdate(d),
-        Ok(Err(_)) => json!(0),
-        Err(_) => json!("panic"),
+        Ok(Err(_)) => json!([]),
+        Err(_) => json!([-1]),
     }
 }
 
